@@ -336,7 +336,7 @@ func (m *Meta) RenameTable(from, to string) *Meta {
 	mu.putSchema(&tsNew)
 	mu.putInfo(m.newInfoTomb(from))
 	mu.putInfo(&tiNew)
-	m.dropFkeys(mu, &ts.Schema)
+	m.dropFkeys(mu, &ts.Schema, true)
 	m.createFkeys(mu, &tsNew.Schema, &tsNew.Schema)
 	return mu.freeze()
 }
@@ -372,7 +372,7 @@ func (m *Meta) Drop(name string) *Meta {
 	} else {
 		mu.putInfo(m.newInfoTomb(name))
 	}
-	m.dropFkeys(mu, &ts.Schema)
+	m.dropFkeys(mu, &ts.Schema, true)
 	return mu.freeze()
 }
 
@@ -729,7 +729,7 @@ func (m *Meta) AlterDrop(ad *schema.Schema) *Meta {
 	mu := newMetaUpdate(m)
 	mu.putSchema(ts)
 	mu.putInfo(ti)
-	m.dropFkeys(mu, ad)
+	m.dropFkeys(mu, ad, false)
 	updateFkeysIIndex(mu, &ts.Schema)
 	return mu.freeze()
 }
@@ -834,7 +834,12 @@ func inIndex(ts *Schema, col string) bool {
 	return false
 }
 
-func (m *Meta) dropFkeys(mu *metaUpdate, drop *schema.Schema) {
+// dropFkeys removes the FkToHere entries for the foreign keys of drop.Indexes.
+// wholeTable is true when the table itself is going away (drop, rename),
+// in which case foreign keys to the same table can be skipped.
+// When only indexes are dropped (alter drop) the table remains
+// so self references must be removed like any other.
+func (m *Meta) dropFkeys(mu *metaUpdate, drop *schema.Schema, wholeTable bool) {
 	// unlike createFkeys
 	// we need to get the actual schema to get the foreign key information
 	schema := &m.GetRoSchema(drop.Table).Schema
@@ -842,7 +847,7 @@ func (m *Meta) dropFkeys(mu *metaUpdate, drop *schema.Schema) {
 	for i := range idxs {
 		idx := schema.FindIndex(idxs[i].Columns)
 		fk := idx.Fk
-		if fk.Table == "" || fk.Table == drop.Table {
+		if fk.Table == "" || (wholeTable && fk.Table == drop.Table) {
 			continue
 		}
 		fkCols := fk.Columns
